@@ -111,10 +111,17 @@ def gen_world(rng, i, tier):
     cfg["cwd"] = "$ROOT"
     if rng.chance(0.25):
         cfg["locale"] = "xx_XX"       # the application has chosen a locale whose decimal point is ',' (process-wide state)
+    # a process-wide requirement (set once, before the threads start) that the private directories meet differently:
+    # every task's own files live in a directory of mode 0755 or 0700, and the directory must be searchable by others
+    perms = None
+    if rng.chance(0.25):
+        perms = [0o400, 0o001]
+        for t in range(nt):
+            nodes.append({"p": "$ROOT/t%d" % t, "t": "d", "mode": rng.pick([0o755, 0o700])})
     # a quarter of the joint runs are the first thing a new process does: whatever the library sets up lazily on
     # first use is then set up under the seeded scheduler
     fresh = rng.chance(0.25)
-    return {"kind": "threads", "tasks": tasks, "nodes": nodes, "sched": sched, "global_dirs": glob, "cfg": cfg, "fresh": fresh}
+    return {"kind": "threads", "tasks": tasks, "nodes": nodes, "sched": sched, "global_dirs": glob, "cfg": cfg, "fresh": fresh, "perms": perms}
 
 
 def block_ops(b, base):
@@ -184,6 +191,8 @@ def task_ops(blocks):
 def build_plans(world):
     tree = gen.tree_plan(world["nodes"])
     pro = [{"op": "setConfDirs", "dirs": world["global_dirs"]}] if world.get("global_dirs") else []
+    if world.get("perms"):
+        pro.append({"op": "security", "what": "perms", "file": world["perms"][0], "dir": world["perms"][1]})
     tasks = [task_ops(b) for b in world["tasks"]]
     multi = {"cfg": dict(world["cfg"], events=False), "tree": tree, "prologue": pro, "tasks": tasks, "sched": dict(world["sched"], threads=True)}
     plans = [multi]
@@ -305,6 +314,8 @@ def check(world, plans, results):
     v.probe("policy_" + world["sched"]["mode"])
     if world.get("fresh"):
         v.probe("joint_run_is_first_use_in_a_new_process")
+    if world.get("perms"):
+        v.probe("permission_requirement_in_force_private_directories_differ")
     if sc.get("in_edge"):
         v.probe("switch_inside_library_code", sc["in_edge"])
     return v
